@@ -22,11 +22,11 @@ def angle_from_pair(m, c, s):
     return math.atan2(pysym.model_float(m, s), pysym.model_float(m, c))
 
 def run_identities(ck, name, fn, replay=None, timeout_ms=20000, maxpaths=2000, stretch=False, key=None,
-                   expect_paths=None, pre=None, keyfn=None):
+                   expect_paths=None, pre=None, keyfn=None, budget_s=None):
     """fn() -> dict(goals=[(label, z3 Bool goal)], inputs={name: term}, pre=[z3 Bool], angles={name:(arg,)})
     Every goal is proved under hyp & pc & pre on every path.  replay(inputs_floats, label) -> (reproduced:bool, detail)"""
     npaths = 0; nviol = 0
-    for res, pc, hyp, taken, status in symcore.explore(fn, maxpaths=maxpaths, timeout_ms=timeout_ms):
+    for res, pc, hyp, taken, status in symcore.explore(fn, maxpaths=maxpaths, timeout_ms=timeout_ms, budget_s=budget_s):
         npaths += 1
         if res is None:
             ck.path(("%s|%s" % (name, taken)))
